@@ -231,5 +231,19 @@ TEXT = {
         note=COMMON_NOTE,
         technique="TLC model checking of the decimal machine (MC_Programs) + TLC -simulate generated programs replayed on the crate + stateful TLA+ trace validation",
         ref="DESIGN.md section 7 C19"),
+    "C20": dict(
+        level="The harness is rebuilt (own target directory) under 4 (quick) / 20 (thorough) build-time configurations drawn from "
+              "precision {1,2,3,7,16,34,100,250} x 7 rounding modes x lower threshold {1,5,9} x upper threshold {0,2,15,40} x "
+              "padding limit {0,5,1000} (every value of every knob at least twice). The first line of each trace carries the "
+              "configuration as recorded by the harness's own build script from the RUST_BIGDECIMAL_* environment - not read back "
+              "from the crate - and the specification's `cfg` variable takes it; every default-context action (Context::default, "
+              "sqrt, cbrt, inverse, 1/x, division, exp, round, Display, {:.N}, {:.Ne}) is then judged by the explicit-context "
+              "operator instantiated with cfg: division small-scope exhaustive (all numerators and denominators below 160 / 1000 "
+              "at precisions <= 3), roots of perfect powers and midpoints at the configured precision, exp to the configured "
+              "digits, ties under the configured mode, values below one unit of the last printed place, Display at threshold "
+              "+-3 zeros, integer padding at the limit +-2. TLC validates every event.",
+        note=COMMON_NOTE + " Rebuilding relies on cargo re-running the crate's build.rs when the RUST_BIGDECIMAL_* variables change (checked: the rebuilt harness must report the requested configuration).",
+        technique="TLA+ trace validation with TLC where the specification's configuration variable is bound by the trace; one rebuilt harness per configuration",
+        ref="DESIGN.md section 7 C20"),
 }
 NA = {}
